@@ -260,6 +260,8 @@ def rules(rep, facts):
         from .rules_print import r15_printed_documents, r16_printed_pieces
         r15_printed_documents(rep, facts)
         r16_printed_pieces(rep, facts)
+        from .rules_print import r17_conversions
+        r17_conversions(rep, facts)
     R8 = rep.rule('C06/R8', 'no order-breaking operation / unstable sort in the printers (the same structure always prints the same, valid header order)', floor=2)
     order_ops(rep, R8, facts)
 
